@@ -437,10 +437,12 @@ def rule_R6_evaluated(ctx, prj) -> bool:
     mdt = prj.func("codelimit.common.report.format_markdown:_print_totals") if prj.maybe_func("codelimit.common.report.format_markdown:_print_totals") else prj.func("codelimit.common.report.format_markdown:print_totals")
     F = RE.FIELDS
     try:
-        scen = [("comparison report", RE.CUR, RE.PREV), ("no comparison report", RE.CUR, None), ("empty comparison report", RE.CUR, {})]
-        for name, cur, prev in scen:
-            th, tf, tr = RE.text_table(lab, cur, prev)
-            mh, mtot, mr = RE.markdown_table(lab, cur, prev)
+        scen = [("comparison report", RE.CUR, RE.PREV, False), ("no comparison report", RE.CUR, None, False), ("empty comparison report", RE.CUR, {}, False),
+                ("empty comparison report, after a scan of other files in the same process", RE.CUR, {}, True),
+                ("comparison report, after a scan of other files in the same process", RE.CUR, RE.PREV, True)]
+        for name, cur, prev, warm in scen:
+            th, tf, tr = RE.text_table(lab, cur, prev, warm)
+            mh, mtot, mr = RE.markdown_table(lab, cur, prev, warm)
             order = sorted(cur, key=lambda l: -cur[l]["loc"])
             sums_c = {f: sum(cur[l][f] for l in cur) for f in F}
             sums_p = {f: sum(prev[l][f] for l in prev) for f in F} if prev is not None else None
